@@ -181,6 +181,8 @@ def gen_spec(rng, force_type=None):
     spec["checkpointing"] = rng.random() < 0.5
     spec["n_workers"] = rng.randint(1, 4)
     spec["tiny_space"] = rng.random() < 0.08
+    spec["searcher_data"] = rng.choice(["rungs", "rungs", "rungs", "all", "rungs_and_last"])
+    spec["myopic"] = rng.random() < 0.5
     style = rng.choice(["grid", "grid", "grid64", "float"])
     spec["style"] = style
     malformed = rng.random() < 0.15
@@ -494,6 +496,9 @@ def run_spec(spec, strict=False, max_trials=None):
         kwargs["max_t"] = max_t
     if spec["cost_attr"]:
         kwargs["cost_attr"] = "cost"
+    if spec.get("searcher_data", "rungs") != "rungs":
+        kwargs["searcher_data"] = spec["searcher_data"]
+        kwargs["register_pending_myopic"] = bool(spec.get("myopic", False))
     if spec["type"] == "rush_promotion":
         kwargs["rung_system_kwargs"] = {"num_threshold_candidates": spec["nthr"]}
         if not spec["tiny_space"]:
@@ -510,10 +515,10 @@ def run_spec(spec, strict=False, max_trials=None):
     rungs = sorted((int(l), float(pq)) for (l, _, pq) in infos)
     levels = [l for l, _ in rungs]
     chk = Checker(spec, levels, max_t, nb)
-    cfg_term = "(mkC %s %s %s %s %s %s %s %s %s (1 # 1000000000))" % (
+    cfg_term = "(mkC %s %s %s %s %s %s %s %s %s (1 # 1000000000) %s)" % (
         VARIANT[spec["type"]], "Min" if spec["mode"] == "min" else "Max", zlit(max_t),
         lst(["(%s, %s)" % (zlit(l), q(pq)) for l, pq in rungs]), natlit(nb), blit(spec["per_bracket"]),
-        blit(spec["mra"]), blit(spec["cost_attr"]), zlit(spec["nthr"]))
+        blit(spec["mra"]), blit(spec["cost_attr"]), zlit(spec["nthr"]), blit(spec.get("searcher_data", "rungs") == "rungs"))
 
     nw = spec["n_workers"]
     slots = [None] * nw
@@ -839,6 +844,7 @@ def run(ctx, replay=None):
         ctx.count(("c04", spec), nontrivial=nontriv)
         ctx.h("type", spec["type"])
         ctx.h("stream", "exhaustive" if spec.get("exhaustive") else "random")
+        ctx.h("searcher_data", spec.get("searcher_data", "rungs"))
         ctx.h("brackets", "%d%s" % (spec["brackets"], "/per_bracket" if spec["per_bracket"] else ""))
         ctx.h("mra/checkpointing", "%s/%s" % (spec["mra"], spec["checkpointing"]))
         for k in ("resumes", "starts", "starts_with_paused", "pauses", "stops", "late", "errors", "nosugg", "ignored", "oracle_errors"):
